@@ -404,6 +404,16 @@ def emit_rtap(work):
     return "\n".join(o) + "\n"
 
 
+STATEFUL_LIBC = set("""asctime basename catgets crypt ctime dbm_clearerr dbm_close dbm_delete dbm_error dbm_fetch dbm_firstkey dbm_nextkey
+dbm_open dbm_store dirname dlerror drand48 ecvt encrypt endgrent endpwent endutxent fcvt ftw gcvt getc_unlocked getchar_unlocked
+getdate getgrent getgrgid getgrnam gethostbyaddr gethostbyname gethostent getlogin getnetbyaddr getnetbyname getnetent
+getopt getprotobyname getprotobynumber getprotoent getpwent getpwnam getpwuid getservbyname getservbyport getservent getutxent
+getutxid getutxline gmtime hcreate hdestroy hsearch inet_ntoa l64a lgamma lgammaf lgammal localeconv localtime lrand48 mrand48
+nftw nl_langinfo ptsname putc_unlocked putchar_unlocked putenv pututxline rand readdir setenv setgrent setkey setpwent setutxent
+strerror strsignal strtok system tmpnam ttyname unsetenv wcrtomb wcsrtombs wcstombs wctomb mbrtowc mbsrtowcs mbtowc mblen mbrlen
+srand random srandom initstate setstate srand48 seed48 lcong48 setlocale""".split())
+
+
 def emit_globals(work):
     """writable / thread-local data of the library's objects built with the shipping flags (readelf), and
     function-local static non-const variables (clang AST)"""
@@ -451,6 +461,19 @@ def emit_globals(work):
                 rows.append((rel, p[7], "common", int(p[2])))
             if len(p) >= 8 and p[3] == "TLS":
                 rows.append((rel, p[7], "tls", int(p[2])))
+    # undefined (imported) symbols that keep hidden process-wide state inside the C library: POSIX's list of functions that
+    # need not be thread-safe, plus the rand/random family and locale/environment setters
+    imports = []
+    for c, o, _ in procs:
+        if not os.path.exists(o):
+            continue
+        r = run(["nm", "-u", o])
+        for line in r.stdout.splitlines():
+            sym = line.split()[-1] if line.split() else ""
+            sym = sym.split("@")[0]
+            base = sym[2:-4] if sym.startswith("__") and sym.endswith("_chk") else sym
+            if base in STATEFUL_LIBC:
+                imports.append((os.path.relpath(c, SRC), sym))
     statics = []
     # function-local statics live in the .c files: scan each with a light regex (the AST of every file would be slow)
     for c in srcs:
@@ -469,7 +492,10 @@ def emit_globals(work):
          "Definition writable : list (string * string * string * Z) := [%s]." % ";\n  ".join(
              "(%s, %s, %s, %d)" % (coq_str(a), coq_str(b), coq_str(k), sz) for a, b, k, sz in rows),
          "Definition static_locals : list (string * string) := [%s]." % ";\n  ".join(
-             "(%s, %s)" % (coq_str(a), coq_str(b)) for a, b in statics)]
+             "(%s, %s)" % (coq_str(a), coq_str(b)) for a, b in statics),
+         "(* (source file, imported C-library function that keeps process-wide state) *)",
+         "Definition stateful_imports : list (string * string) := [%s]." % ";\n  ".join(
+             "(%s, %s)" % (coq_str(a), coq_str(b)) for a, b in sorted(set(imports)))]
     return "\n".join(o) + "\n"
 
 
